@@ -34,6 +34,7 @@ func c08(c *Ctx) {
 	c08R7(c)
 	c08R8(c)
 	requesterGuardRule(c, "R9")
+	requestBookkeepingRule(c, "R10")
 }
 
 func c08R4(c *Ctx) {
